@@ -67,5 +67,14 @@ C14_LiveArguments ==
   [][(IsKey /\ St = "Down" /\ Code \notin ModKeys) =>
         /\ query' = Query(layout, Code, mods, mode)
         /\ eout' = KeyOut(MCLayoutFn(layout, Code, mods, mode))]_mcvars
+(* negative control (selftest): a decoder in which releasing left Alt clears the AltGr flag must
+   violate C04_ModsAreHistory (MC_Event_neg.cfg overrides EvMods with this) *)
+BrokenEvMods(m, code, st) ==
+  IF code = "LAlt" /\ st = "Up" THEN ClrBit(m, 7)
+  ELSE IF code \in MomentaryModKeys /\ st = "Down" THEN SetBit(m, FlagOf[code])
+  ELSE IF code \in MomentaryModKeys /\ st = "Up" THEN ClrBit(m, FlagOf[code])
+  ELSE IF code = "CapsLock" /\ st = "Down" THEN Toggle(m, CAPSLOCK)
+  ELSE IF code = "NumpadLock" /\ st = "Down" /\ ~Has(m, HIDDENCTRL) THEN Toggle(m, NUMLOCK)
+  ELSE m
 (* every one of the 512 x 2 x 2 decoder states is reachable - the quantifier is not vacuous *)
 =============================================================================
